@@ -114,13 +114,14 @@ def binding_tv(ctx, scenarios, depth):
 
 def run(ctx):
     if ctx.only is None:
-        vlib.tlc_mc(ctx, "Bond_MC", ctx.pick("Bond_MC_quick.cfg", "Bond_MC.cfg"), coverage=not ctx.quick,
-                    timeout=ctx.pick(600, 1500))
+        vlib.tlc_mc(ctx, "Bond_MC", ctx.pick("Bond_MC_quick.cfg", "Bond_MC.cfg"), timeout=ctx.pick(600, 1500))
+        if not ctx.quick:
+            vlib.tlc_mc(ctx, "Bond_MC", "Bond_MC_chunk3.cfg", label="chunk3", coverage=True, timeout=1500)
         r = vlib.tlc_mc(ctx, "Bond_MC", "Bond_MC_original.cfg", label="orig", expect_violation=True)
         ctx.cov["design_step_detects_double_bond_as_originally_coded"] = bool(r["violated"])
         if not r["violated"]:
             raise vlib.Infra("sensitivity: the model of Bond as originally coded no longer violates the ledger")
-    fails = binding_tv(ctx, ctx.pick(400, 6000), ctx.pick(30, 60))
+    fails = binding_tv(ctx, ctx.pick(400, 4000), ctx.pick(30, 60))
     vlib.report_failures(ctx, fails, describe)
     ctx.cov["rule"] = ("tv: seeded histories (30/60 calls) over 6 real transactions of 1-3 sponsors: BuildChunk with 1-4 txs "
                        "(duplicates inside the chunk and re-submission of recently built txs are biased in), fee rates "
